@@ -428,6 +428,18 @@ CONTROLS += [
     C('fire-get-children-default-unordered', 'fire', ['C01'],
       sub("    def get_children(self, ordered: bool = True) -> List['XMLElement']:", "    def get_children(self, ordered: bool = False) -> List['XMLElement']:", XE), 'R-DOM.ordered-view',
       'the default of get_children flips to the insertion order: the serialiser (which passes no argument) writes children in insertion order'),
+    C('fire-deref-hoisted-before-none-guard', 'fire', ['C19'],
+      sub("        if self._child_container_tree:\n            return [xml_element for leaf in self._child_container_tree.iterate_leaves() for",
+          "        leaves = self._child_container_tree.get_leaves()\n        if self._child_container_tree:\n            return [xml_element for leaf in leaves for", XE), 'R-DOM.none-guard',
+      'the leaves are fetched into a local before the test that the container exists: AttributeError on None for an element without child content (the alias pass of '
+      'the normaliser must not move the dereference back behind the guard)'),
+    C('fire-class-name-before-membership-gate', 'fire', ['C15', 'C19'],
+      sub("        child_name = name.replace('xml_', '')\n\n        if '-'.join(child_name.split('_')) not in self.possible_children_names:\n            raise NameError\n\n"
+          "        child_class_name = 'XML' + ''.join([cap_first(partial) for partial in child_name.split('_')])\n        child_class = eval(child_class_name)\n",
+          "        child_name = name.replace('xml_', '')\n        child_class = eval('XML' + ''.join([cap_first(partial) for partial in child_name.split('_')]))\n\n"
+          "        if '-'.join(child_name.split('_')) not in self.possible_children_names:\n            raise NameError\n\n"
+          "        child_class_name = 'XML' + ''.join([cap_first(partial) for partial in child_name.split('_')])\n", XE), 'R-TAB.shortcut-names',
+      'the class lookup (eval, cap_first) runs before the membership gate: IndexError / NameError of the name arithmetic instead of the AttributeError of a rejected name'),
     C('silent-reformat-all-modules', 'silent', ALL_PROPS, reformat_all_modules(), None, 'whole-program re-formatting'),
     C('silent-rename-all-locals-container', 'silent', ALL_PROPS, rename_all_locals(CC), None, 'every local of xmlchildcontainer.py renamed'),
     C('silent-rename-all-locals-parser', 'silent', ['C08', 'C09', 'C17', 'C19'], rename_all_locals(PA), None, 'every local of parser.py renamed'),
